@@ -128,10 +128,17 @@ func (srv *Server) Characteristics(w http.ResponseWriter, r *http.Request) {
 		}
 
 		resp := &CharacteristicsResponse{}
+		failed := false // indicates if any of the writes could not be applied
 		for _, ch := range req.Characteristics {
+			// Every entry gets a status code, which is only sent when any of them failed (0 means OK)
+			status := hap.StatusSuccess
+			resp.Characteristics = append(resp.Characteristics, CharacteristicResponse{AccessoryID: ch.AccessoryID, CharacteristicID: ch.CharacteristicID, Status: &status})
+
 			c := srv.getCharacteristic(ch.AccessoryID, ch.CharacteristicID)
 			if c == nil {
 				log.Info.Printf("Could not find characteristic with aid %d and iid %d\n", ch.AccessoryID, ch.CharacteristicID)
+				status = hap.StatusResourceDoesNotExist
+				failed = true
 				continue
 			}
 
@@ -141,9 +148,8 @@ func (srv *Server) Characteristics(w http.ResponseWriter, r *http.Request) {
 
 			if ch.Events != nil {
 				if !c.IsObservable() {
-					status := hap.StatusNotificationNotSupported
-					err := CharacteristicResponse{AccessoryID: ch.AccessoryID, CharacteristicID: ch.CharacteristicID, Status: &status}
-					resp.Characteristics = append(resp.Characteristics, err)
+					status = hap.StatusNotificationNotSupported
+					failed = true
 					continue
 				}
 
@@ -157,11 +163,13 @@ func (srv *Server) Characteristics(w http.ResponseWriter, r *http.Request) {
 			}
 		}
 
-		if len(resp.Characteristics) == 0 {
+		if !failed {
 			w.WriteHeader(http.StatusNoContent)
 			return
 		}
 
+		// Set 207 status when any of the writes failed
+		w.WriteHeader(http.StatusMultiStatus)
 		WriteJSON(w, r, resp)
 
 	default:
